@@ -462,7 +462,7 @@ def goal_sensor(spec, pre, post):
   sid = int(pre[e["adr_label"]][tidx])
   a = np_accessor_from_pre(pre)
   objid = int(pre["sensor_objid"][sid])
-  g = lambda lab: int(pre[lab][sid]) if lab in pre else 0
+  g = lambda lab: int(pre[lab][sid]) if (lab in pre and sid < len(pre[lab])) else 0
   raw = ref_sensor(a, S, stype, w, objid, g("sensor_objtype"), g("sensor_refid"), g("sensor_reftype"))
   adr = int(pre["sensor_adr"][sid])
   at = lambda lab, d: pre[lab][sid] if sid < len(pre[lab]) else d  # arrays the thread never read may be empty in the model
